@@ -67,6 +67,11 @@ OPS = [
     ("solver p UNIQUAC synthetic", _solver({"permeate_pressure": 0.5}, "UNIQUAC", who="pv_syn")),
     ("solver with permeances", lambda w: w["pv"].calculate_partial_fluxes(feed_temperature=318.15, composition=w["comps"]["w"], first_component_permeance=w["perms"][0],
                                                                         second_component_permeance=w["perms"][1], permeate_temperature=280.0)),
+    ("solver p NRTL fine precision", lambda w: w["pv"].calculate_partial_fluxes(feed_temperature=333.15, composition=w["comps"]["w"], calculation_type="NRTL",
+                                                                                permeate_pressure=0.5, precision=1e-9)),
+    ("solver p NRTL other permeances", lambda w: w["pv"].calculate_partial_fluxes(feed_temperature=333.15, composition=w["comps"]["w"], calculation_type="NRTL",
+                                                                                  permeate_pressure=0.5, first_component_permeance=w["perms"][0], second_component_permeance=w["perms"][1])),
+    ("solver T NRTL weight", _solver({"permeate_temperature": 293.15}, "NRTL", comp="w")),
     ("permeate composition helper", lambda w: w["pv"].calculate_permeate_composition(feed_temperature=333.15, composition=w["comps"]["m"], permeate_pressure=0.5, calculation_type="UNIQUAC")),
     ("separation factor helper", lambda w: w["pv"].calculate_separation_factor(feed_temperature=333.15, composition=w["comps"]["m"], permeate_temperature=293.15)),
     ("ideal curve", lambda w: w["pv"].ideal_diffusion_curve(feed_temperature=333.15, compositions=w["comps"]["list"], permeate_temperature=293.15)),
@@ -86,6 +91,11 @@ OPS = [
     ("fit include_zero", lambda w: U.pyvaporation.fit(w["meas"]["second"], n=1, m=0, include_zero=True, component_index=1)),
     ("find_best_fit", lambda w: U.pyvaporation.find_best_fit(w["meas"]["second"], include_zero=False, component_index=1, n=2, m=0)),
     ("find_best_fit include_zero", lambda w: U.pyvaporation.find_best_fit(w["meas"]["first"], include_zero=True, component_index=0, n=1, m=1)),
+    # near-collision siblings of operations above/below: same objects, exactly one argument differs
+    ("fit other component", lambda w: U.pyvaporation.fit(w["meas"]["second"], n=1, m=0, include_zero=True, component_index=0)),
+    ("fit other order", lambda w: U.pyvaporation.fit(w["meas"]["second"], n=2, m=0, include_zero=False, component_index=1)),
+    ("find_best_fit other component", lambda w: U.pyvaporation.find_best_fit(w["meas"]["first"], include_zero=True, component_index=1, n=1, m=1)),
+    ("find_best_fit no zero", lambda w: U.pyvaporation.find_best_fit(w["meas"]["first"], include_zero=False, component_index=0, n=1, m=1)),
     ("nonideal curve one", lambda w: w["pv"].non_ideal_diffusion_curve(diffusion_curve_set=w["one"], feed_temperature=338.15, initial_feed_composition=w["comps"]["m"],
                                                                        delta_composition=0.02, number_of_steps=3, include_zero=True)),
     ("nonideal iso one molar-set", lambda w: w["pv"].non_ideal_isothermal_process(conditions=w["conds"]["T"], diffusion_curve_set=w["molar"], number_of_steps=3, delta_hours=0.5)),
@@ -97,8 +107,8 @@ OPS = [
     ("nonideal noniso two", lambda w: w["pv"].non_ideal_non_isothermal_process(conditions=w["conds"]["vac"], diffusion_curve_set=w["two"], number_of_steps=3, delta_hours=0.5,
                                                                               n_first=1, n_second=1, m_first=0, m_second=1, include_zero=True)),
 ]
-CHEAP = list(range(0, 22))  # everything that does not fit
-FITTING = list(range(22, len(OPS)))
+CHEAP = [i for i, o in enumerate(OPS) if not (o[0].startswith("fit") or o[0].startswith("find_best_fit") or o[0].startswith("nonideal"))]
+FITTING = [i for i in range(len(OPS)) if i not in CHEAP]
 _REF = {}
 
 
@@ -119,6 +129,8 @@ def judge_history(case):
     pristine = canon.ser(world)
     c0 = canon.canon(world)
     g0 = canon.canon(None)
+    h0 = canon.hidden_state()
+    hidden = 0
     v = []
     states = {c0}
     digs = []
@@ -127,10 +139,12 @@ def judge_history(case):
         digs.append(d)
         c = canon.canon(world)
         states.add(c)
+        if canon.hidden_state() != h0:
+            hidden = 1  # hidden library state (module data / class defaults): recorded; the result comparisons decide
         if c != c0:
             where = canon.diff(pristine, canon.ser(world))
             if where is None:
-                where = "library-global state (singletons / class defaults / module data) changed" if canon.canon(None) != g0 else "unknown"
+                where = "a built-in Mixtures/Components singleton changed" if canon.canon(None) != g0 else "unknown"
             v.append(core.viol("C20/world_changed", "operation %r (step %d of history %r) changed shared state: %s" % (OPS[i][0], step, [OPS[j][0] for j in case["ops"]], where),
                                history=case["ops"]))
             break
@@ -140,7 +154,7 @@ def judge_history(case):
                 OPS[i][0], step, [OPS[j][0] for j in case["ops"]]), history=case["ops"], got=d, fresh=ref))
             break
     return core.result("history", digest=core.digest_of([case["ops"], digs]), viol=v, states=len(states), transitions=len(digs), traces=1,
-                       sample={"history": [OPS[j][0] for j in case["ops"]], "result_digests": digs})
+                       histories_creating_hidden_library_state=hidden, sample={"history": [OPS[j][0] for j in case["ops"]], "result_digests": digs})
 
 
 def main(tier, seed):
@@ -164,7 +178,9 @@ def main(tier, seed):
     rep.note("operations_that_raise", raised)
     hists = [{"ops": [i]} for i in range(len(OPS))]
     if q:
-        sub = CHEAP[::2] + FITTING[:5]
+        sub = CHEAP[::2] + FITTING[:8]
+        solv = [i for i in CHEAP if OPS[i][0].startswith("solver")]
+        hists += [{"ops": [a, b]} for a in solv for b in solv]
         hists += [{"ops": [a, b]} for a in sub for b in sub]
         hists += [{"ops": [a, b]} for a in FITTING for b in CHEAP[1::4]] + [{"ops": [b, a]} for a in FITTING for b in CHEAP[1::4]]
     else:
@@ -179,6 +195,8 @@ def main(tier, seed):
             seen.add(k)
             uniq.append(h)
     core.run_space(rep, core.ListSpace("call_histories", uniq, note="depth-1 closure over the full menu + ordered pairs (+ triples in thorough)"), judge_history, chunk=2, determinism_probe=0)
+    m = rep.spaces[-1]
+    rep.note("histories_creating_hidden_library_state", m["counters"].get("histories_creating_hidden_library_state", 0))
     rep.note("max_history_depth", 2 if q else 3)
     return rep.finish()
 
